@@ -38,7 +38,7 @@ type GevDistribution struct {
 /* -------------------------------------------------------------------------- */
 
 func NewGevDistribution(mu, sigma, xi Scalar) (*GevDistribution, error) {
-  if sigma.GetFloat64() <= 0.0 {
+  if !(sigma.GetFloat64() > 0.0) {
     return nil, fmt.Errorf("invalid value for parameter sigma: %f", sigma.GetFloat64())
   }
   // some constants
